@@ -215,4 +215,29 @@ def stepArgs {α : Type} [Inhabited α] (locals_ : List (String × α)) (xs allS
 /-- `(A != 0) | (A.T != 0)` -/
 def mirror (anz : Nat → Nat → Bool) : Nat → Nat → Bool := fun i j => anz i j || anz j i
 
+/-! ### constructors of the integrators -/
+
+/-- what `MixedIntegrator.__init__` reads and writes of the analytic solver dictionary -/
+structure AnaDict (α : Type) where
+  hasParams : Bool
+  params : List (String × α)
+  stateVars : List String
+
+def AnaDict.lacksParams {α : Type} (d : Option (AnaDict α)) : Bool := match d with | some a => !a.hasParams | none => false
+def AnaDict.paramsOf {α : Type} (d : Option (AnaDict α)) : List (String × α) := match d with | some a => a.params | none => []
+def AnaDict.stateVarsOf {α : Type} (d : Option (AnaDict α)) : List String := match d with | some a => a.stateVars | none => []
+def AnaDict.setParams {α : Type} (d : Option (AnaDict α)) (p : List (String × α)) : Option (AnaDict α) :=
+  d.map (fun a => { a with hasParams := true, params := p })
+
+inductive IvErr where
+  | unknownKey      -- `assert k in self.initial_values.keys()`
+  | notNumeric      -- "Could not convert initial value expression to float"
+deriving DecidableEq, Repr
+
+/-- `self.initial_values[k] = float(expr.evalf(subs=...))` -/
+def evalInto {α : Type} (d : List (String × α)) (k : String) (r : Option α) : Except IvErr (List (String × α)) :=
+  match r with
+  | some a => .ok (assoc d k a)
+  | none => .error .notNumeric
+
 end OdeVerif.Glue
